@@ -1,9 +1,9 @@
 (* C13 - Bound parameters behave like the equivalent literals.
-   Property theorems only (proofs: Proof/ParamSubstLex.v, Proof/ParamSubstLit.v), about the
+   Property theorems only (proofs: Proof/ParamSubstLex.v, ParamSubstLit.v, ParamSubstLocal.v, ParamSubstStable.v), about the
    hand-written model Model/ParamSubst.v of the lexer, substitute_parameters,
    value_to_sql_literal and the parser's string unescape. *)
 From Coq Require Import ZArith List Bool.
-From TV Require Import Model.ParamSubst Proof.ParamSubstLex Proof.ParamSubstLit.
+From TV Require Import Model.ParamSubst Proof.ParamSubstLex Proof.ParamSubstLit Proof.ParamSubstLocal Proof.ParamSubstStable.
 Import ListNotations.
 Open Scope Z_scope.
 
@@ -126,6 +126,38 @@ Theorem literal_roundtrip :
     read_literal (render v) = lit_of v.
 Proof. exact literal_roundtrip_l. Qed.
 
+(* ---- substitution keeps the token structure of the whole statement *)
+(* locality of the lexer: a token b :: T followed by the byte c is found again when the text behind c
+   changes, provided c is a separator or the first byte behind c stays the same *)
+Theorem scan_local :
+  forall b T c X Y k, scan b (T ++ c :: X) = (k, length T) -> look2 c X Y ->
+    scan b (T ++ c :: Y) = (k, length T).
+Proof. exact scan_local_l. Qed.
+
+(* If every placeholder stands as a token of its own (before it: start, whitespace, `(` or `,`;
+   after it: end, whitespace, `)`, `,` or `;`), then for ALL statements -- whatever strings, comments,
+   quoted identifiers, numbers and operators they contain -- and ALL NULL / boolean / integer / text /
+   blob values, the lexer reads the substituted statement as the original token sequence with each
+   placeholder replaced by the token(s) of its literal, and nothing else changed. *)
+Theorem subst_keeps_tokens :
+  forall sql ps items out,
+    lex sql = Some items -> isolated true items = true -> forallb simple_val ps = true ->
+    subst_items items ps O = Some out ->
+    exists want, expand_items items ps O = Some want /\ lex out = Some want.
+Proof. exact subst_keeps_tokens_l. Qed.
+
+(* ... where the tokens of a literal are what the lexer makes of the literal alone *)
+Theorem literal_tokens :
+  forall v, simple_val v = true -> lex (render v) = Some (lit_items v).
+Proof. exact lex_render. Qed.
+
+(* so outside finding class 7 (tokens fusing) the model's own check can never fail *)
+Theorem subst_stable_when_isolated :
+  forall sql ps items out,
+    lex sql = Some items -> isolated true items = true -> forallb simple_val ps = true ->
+    subst_items items ps O = Some out -> subst_stable sql ps = true.
+Proof. exact subst_stable_l. Qed.
+
 (* ---- what the faithful model refutes (re-run on the real code on every check) *)
 Theorem literal_roundtrip_refuted :
   exists v, val_ok v = true /\ is_float v = false /\ val_class v = 6 /\ read_literal (render v) <> lit_of v.
@@ -158,7 +190,13 @@ Example c13_witness :
   /\ quote_kind 39 KStr /\ qsplit 39 [63; 39; 32] = Some ([63], [32])
   /\ val_class (VInt (-9223372036854775807)) = 0
   /\ read_literal (render (VInt (-9223372036854775807))) = LInt (-9223372036854775807)
-  /\ subst_stable [97; 45; 32; 63] [VInt (-5)] = true.
+  /\ subst_stable [97; 45; 32; 63] [VInt (-5)] = true
+  (* SELECT id, '?' FROM t /* ? */ WHERE s = ? AND a IN (?, ?) -- ?   is `isolated`;   a-?   is not *)
+  /\ option_map (isolated true)
+       (lex [83;69;76;69;67;84;32;105;100;44;32;39;63;39;32;70;82;79;77;32;116;32;47;42;32;63;32;42;47;32;
+             87;72;69;82;69;32;115;32;61;32;63;32;65;78;68;32;97;32;73;78;32;40;63;44;32;63;41;32;45;45;32;63]) = Some true
+  /\ option_map (isolated true) (lex [97; 45; 63]) = Some false
+  /\ forallb simple_val [VText [39; 59; 45; 45]; VInt (-5); VNull; VBlob [0; 255]; VBool true] = true.
 Proof. vm_compute. repeat split; try reflexivity. left. split; reflexivity. Qed.
 
 Check lex_total : forall sql, exists items, lex sql = Some items /\ concat (map snd items) = sql.
@@ -199,6 +237,16 @@ Check blob_is_one_token : forall b rest f, forallb byte_ok b = true ->
     lex_loop (S f) (render (VBlob b) ++ rest) = option_map (cons (KHex, render (VBlob b))) (lex_loop f rest).
 Check literal_roundtrip : forall v, val_ok v = true -> is_float v = false -> val_class v = 0 ->
     read_literal (render v) = lit_of v.
+Check scan_local : forall b T c X Y k, scan b (T ++ c :: X) = (k, length T) -> look2 c X Y ->
+    scan b (T ++ c :: Y) = (k, length T).
+Check subst_keeps_tokens : forall sql ps items out,
+    lex sql = Some items -> isolated true items = true -> forallb simple_val ps = true ->
+    subst_items items ps O = Some out ->
+    exists want, expand_items items ps O = Some want /\ lex out = Some want.
+Check literal_tokens : forall v, simple_val v = true -> lex (render v) = Some (lit_items v).
+Check subst_stable_when_isolated : forall sql ps items out,
+    lex sql = Some items -> isolated true items = true -> forallb simple_val ps = true ->
+    subst_items items ps O = Some out -> subst_stable sql ps = true.
 Check literal_roundtrip_refuted :
   exists v, val_ok v = true /\ is_float v = false /\ val_class v = 6 /\ read_literal (render v) <> lit_of v.
 Check int_min_refuted : read_literal (render (VInt i64_min)) = LIntOverflow.
@@ -225,6 +273,10 @@ Print Assumptions int_literal_roundtrip.
 Print Assumptions int_literal_tokens.
 Print Assumptions blob_is_one_token.
 Print Assumptions literal_roundtrip.
+Print Assumptions scan_local.
+Print Assumptions subst_keeps_tokens.
+Print Assumptions literal_tokens.
+Print Assumptions subst_stable_when_isolated.
 Print Assumptions literal_roundtrip_refuted.
 Print Assumptions int_min_refuted.
 Print Assumptions float_as_int_refuted.
